@@ -192,9 +192,28 @@ func Compile(originConf *Config, exprStr string) (*Expr, error) {
 		return nil, res.err
 	}
 
+	if conf.CompileOptions[ReportEvent] || conf.CompileOptions[Debug] {
+		// event mode adds one event node per node, except for the two
+		// inlined operands of each fast operator
+		if size := 2*res.size - 2*countFastOperators(ast); size > math.MaxInt16 {
+			return nil, fmt.Errorf("expression cannot exceed a maximum of 32767 nodes (event nodes included), got: [%d]", size)
+		}
+	}
+
 	expr := buildExpr(conf, ast, res.size)
 
 	return expr, nil
+}
+
+func countFastOperators(root *astNode) int {
+	cnt := 0
+	if root.node.getNodeType() == fastOperator {
+		cnt++
+	}
+	for _, child := range root.children {
+		cnt += countFastOperators(child)
+	}
+	return cnt
 }
 
 func optimize(cc *Config, root *astNode) {
@@ -781,8 +800,8 @@ func calAndSetEventNode(e *Expr) {
 	var (
 		nodes          = e.nodes
 		size           = int16(len(nodes))
-		res            = make([]*node, 0, size*2)
-		parents        = make([]int16, 0, size*2)
+		res            = make([]*node, 0, int(size)*2)
+		parents        = make([]int16, 0, int(size)*2)
 		eventNodeIdxes = make([]int16, size)
 		realIdxes      = make([]int16, size)
 	)
